@@ -8,7 +8,7 @@ Line protocol (one op per line):
   pp <q> <defs> <undefs> <hexsrc>   (q = four 0/1 flags: Quirks.vaComma, stringSpace, elifEval, pasteBlue; 1111 = the code)
                                     -> "T <hex of output tokens joined by one space>" | "E <class>" | "X <why>" (outside the fragment)
   cd <hex userDefines> <undefs> <hex cfg> <hexsrc>   -> same, through the model of createDUI
-  spec <defs> <ast>                 -> "<hex printed text> <S v u | U> <class> <V n | E cls>"   specification value, agreement class
+  spec|specpf <defs> <ast>          -> "<hex printed text> <S v u | U> <class> <V n | E cls>"   specification value, agreement class
                                        ("agree" or the first failing hypothesis of ifeval_eq_spec), model value
         ast (prefix, space free): l<base>.<n>.<u>.<lsuf>  D<hexname>  P<hexname> (defined with parentheses)  I<hexname>
                                   u<op>(<ast>)  b<op>(<ast>,<ast>)  c(<ast>,<ast>,<ast>)      op = index into the enum
@@ -129,17 +129,21 @@ def step (line : String) : String :=
     match fromHex ud, parseList undefs, fromHex cfg, fromHex src with
     | some ud, some undefs, some cfg, some src => ppOut (runFile Quirks.code (duiDefines ud cfg) undefs src)
     | _, _, _, _ => "bad-op"
-  | ["spec", defs, ast] =>
+  | [op, defs, ast] =>
+    -- spec: minimal parentheses (`print`);  specpf: every compound operand parenthesised (`printPF`, theorem ifeval_eq_spec_paren)
+    if op != "spec" && op != "specpf" then "bad-op" else
     match parseList defs, parseE ast.toList with
     | some defs, some (e, []) =>
       let isDef (x : Tok) : Bool := defs.any fun d => defName d == x
-      let text := joinToks (print e)
+      let toks := if op == "spec" then print e else printPF e
+      let text := joinToks toks
       let sv := match value isDef e with
         | some v => s!"S {v.v} {boolStr v.u}"
         | none => "U"
-      let cls := (firstFailing isDef e).getD "agree"
+      let cls0 := (firstFailing isDef e).getD "agree"
+      let cls := if op == "specpf" && (cls0 == "mix" || cls0 == "chain") then "agree" else cls0
       -- the printed tokens through `evalIf` (theorems) and the text through lexer + macro table (tie): must coincide
-      let a := evalIfText defs (print e)
+      let a := evalIfText defs toks
       let b := evalText defs text
       s!"{toHex text} {sv} {cls} {if a == b then a else "SELF-MISMATCH"}"
     | _, _ => "bad-op"
